@@ -706,6 +706,36 @@ class Tensor:
             dim = self.a.ndim + 1 + dim
         return self._view(np.expand_dims(self.a, dim))
 
+    def __getattr__(self, name):
+        # only reached when normal lookup fails
+        if name.startswith('_'):
+            raise AttributeError(name)
+        raise P.UnsupportedAttr('Tensor.%s is outside the symbolic engine' % name)
+
+    def unflatten(self, dim, sizes):
+        nd = self.a.ndim
+        d = dim % nd
+        sizes = tuple(int(v) for v in sizes)
+        if -1 in sizes:
+            known = int(np.prod([v for v in sizes if v != -1])) or 1
+            sizes = tuple(self.a.shape[d] // known if v == -1 else v for v in sizes)
+        if int(np.prod(sizes)) != self.a.shape[d]:
+            raise RuntimeError('unflatten: Provided sizes %s don\'t multiply up to the size of dim %d (%d) in the input tensor' % (list(sizes), d, self.a.shape[d]))
+        return self.view(*(self.a.shape[:d] + sizes + self.a.shape[d + 1:]))
+
+    def var(self, dim=None, unbiased=True, keepdim=False, correction=None):
+        n = self.a.size if dim is None else int(np.prod([self.a.shape[d] for d in ([dim] if isinstance(dim, int) else dim)]))
+        corr = (1 if unbiased else 0) if correction is None else correction
+        m = mean(self, dim, True) if dim is not None else mean(self)
+        dlt = self - m
+        ss = sum_(dlt * dlt, dim, keepdim) if dim is not None else sum_(dlt * dlt)
+        if n - corr <= 0:
+            raise Unsupported('variance with non-positive degrees of freedom')
+        return ss / (n - corr)
+
+    def std(self, dim=None, unbiased=True, keepdim=False, correction=None):
+        return sqrt(self.var(dim, unbiased, keepdim, correction))
+
     def flatten(self, start_dim=0, end_dim=-1):
         nd = self.a.ndim
         s = start_dim % nd if nd else 0
@@ -1551,3 +1581,15 @@ rand = _unsupported('torch.rand')
 randn = _unsupported('torch.randn')
 rand_like = _unsupported('torch.rand_like')
 randn_like = _unsupported('torch.randn_like')
+
+
+def var(t, dim=None, unbiased=True, keepdim=False, correction=None):
+    return t.var(dim, unbiased, keepdim, correction)
+
+
+def std(t, dim=None, unbiased=True, keepdim=False, correction=None):
+    return t.std(dim, unbiased, keepdim, correction)
+
+
+def unflatten(t, dim, sizes):
+    return t.unflatten(dim, sizes)
